@@ -3,6 +3,7 @@ package gvc
 import (
 	"fmt"
 	"go/ast"
+	"go/constant"
 	"go/token"
 	"go/types"
 	"sort"
@@ -354,6 +355,25 @@ func (x *Exec) callFunc(call *ast.CallExpr, obj *types.Func, recv *Val, args []*
 	}
 	switch {
 	case c != nil && !(c.Flags["inline"] || c.Flags["helper"]) || (c != nil && fi == nil):
+		if key == "fmt.Errorf" && !x.pure {
+			// fmt.Errorf with a constant format that has exactly one %w verb wraps that operand: errors.Is(result, operand)
+			if wi := wrapVerbOperand(call, fr); wi >= 0 {
+				k0 := k
+				k = func(s *St, r *Val) {
+					if wi+1 < len(call.Args) && r != nil && r.T != nil {
+						x.eval(call.Args[wi+1], s, fr, func(s2 *St, op *Val) {
+							if op != nil && op.T != nil && op.T.Sort == SRef {
+								x.W.BG.Funs["logic.errIs"] = FunSig{Name: "logic.errIs", Args: []Sort{SRef, SRef}, Res: SBool}
+								x.assume(s2, App("logic.errIs", SBool, r.T, op.T))
+							}
+							k0(s2, r)
+						})
+						return
+					}
+					k0(s, r)
+				}
+			}
+		}
 		x.callContract(call, c, obj, fi, recv, args, st, fr, k)
 	case fi != nil:
 		x.inlineDecl(fi, recv, args, call, st, fr, k)
@@ -1116,4 +1136,44 @@ func (x *Exec) heapTypingAll(st *St) {
 // callOpaque: call of an unknown function value (callback / yield parameters) — handled by protocols.
 func (x *Exec) callOpaque(call *ast.CallExpr, fv *Val, st *St, fr *Frame, k kval) {
 	x.callProtocol(call, fv, st, fr, k)
+}
+
+// wrapVerbOperand: for a call fmt.Errorf(format, operands...) with a constant format string that contains exactly one
+// %w verb, the index (among the operands) of the operand that verb formats; -1 otherwise.
+func wrapVerbOperand(call *ast.CallExpr, fr *Frame) int {
+	if len(call.Args) == 0 || call.Ellipsis.IsValid() {
+		return -1
+	}
+	tv, ok := fr.info.Types[call.Args[0]]
+	if !ok || tv.Value == nil || tv.Value.Kind() != constant.String {
+		return -1
+	}
+	f := constant.StringVal(tv.Value)
+	verb, found := 0, -1
+	for i := 0; i < len(f); i++ {
+		if f[i] != '%' {
+			continue
+		}
+		i++
+		// flags, width, precision (no '*' or argument indexes: give up on those)
+		for i < len(f) && strings.ContainsRune("+-# 0123456789.", rune(f[i])) {
+			i++
+		}
+		if i >= len(f) {
+			break
+		}
+		switch f[i] {
+		case '%':
+			continue
+		case '*', '[':
+			return -1
+		case 'w':
+			if found >= 0 {
+				return -1
+			}
+			found = verb
+		}
+		verb++
+	}
+	return found
 }
